@@ -65,6 +65,17 @@ def _dig(doc, pos, key, idx=0):
         if len(v.items) != (1 if pos == "list1" else 3):
             return _Shape("list of %d items" % len(v.items))
         return v.items[idx]
+    if pos == "nest":
+        if len(v.items) != 2 or not isinstance(v.items[0], ListValue) or len(v.items[0].items) != 2:
+            return _Shape("not [[v, x], y]")
+        return v.items[0].items[0]
+    if pos == "mapnest":
+        if len(v.items) != 1 or not isinstance(v.items[0], InlineMap) or list(v.items[0].pairs.keys()) != [key]:
+            return _Shape("list without the single inline map")
+        inner = v.items[0].pairs[key]
+        if not isinstance(inner, ListValue) or len(inner.items) != 1:
+            return _Shape("inline map value is not a one-item list")
+        return inner.items[0]
     if pos == "imap":
         if len(v.items) != 1 or not isinstance(v.items[0], InlineMap):
             return _Shape("list without the single inline map")
@@ -86,7 +97,7 @@ def _api(case, v):
 
     out = []
     for key in KEYS:
-        for pos in ("assign", "meta", "list1", "list3", "imap"):
+        for pos in ("assign", "meta", "list1", "list3", "imap", "nest", "mapnest"):
             if pos == "assign":
                 doc = Document(name="T", sections=[Assignment(key=key, value=v)])
             elif pos == "meta":
@@ -95,6 +106,10 @@ def _api(case, v):
                 doc = Document(name="T", sections=[Assignment(key=key, value=ListValue(items=[v]))])
             elif pos == "list3":
                 doc = Document(name="T", sections=[Assignment(key=key, value=ListValue(items=[v, "x", v]))])
+            elif pos == "nest":
+                doc = Document(name="T", sections=[Assignment(key=key, value=ListValue(items=[ListValue(items=[v, "x"]), "y"]))])
+            elif pos == "mapnest":
+                doc = Document(name="T", sections=[Assignment(key=key, value=ListValue(items=[InlineMap(pairs={key: ListValue(items=[v])})]))])
             else:
                 doc = Document(name="T", sections=[Assignment(key=key, value=ListValue(items=[InlineMap(pairs={key: v})]))])
             try:
@@ -146,7 +161,7 @@ def _tool_route(case, v):
     path = os.path.join(_tmpdir, "t%d.oct.md" % os.getpid())
     out = []
     for key in KEYS:
-        for pos in ("assign", "meta", "list1", "list3", "imap"):
+        for pos in ("assign", "meta", "list1", "list3", "imap", "nest", "mapnest"):
             # where the value is a number / boolean, the field already holds its "twin": equal in Python, another kind in OCTAVE
             twin = _twin(v)
             with open(path, "w", encoding="utf-8") as f:
@@ -162,6 +177,10 @@ def _tool_route(case, v):
                 kw = {"changes": {key: [v]}}
             elif pos == "list3":
                 kw = {"changes": {key: [v, "x", v]}}
+            elif pos == "nest":
+                kw = {"changes": {key: [[v, "x"], "y"]}}
+            elif pos == "mapnest":
+                kw = {"changes": {key: [{key: [v]}]}}
             else:
                 kw = {"changes": {key: [{key: v}]}}
             try:
